@@ -83,6 +83,3 @@ impl<R> AesReaderValid<R> {
 }
 impl<R> Dev for AesReaderValid<R> { open spec fn g_dev(&self) -> bool { false } open spec fn g_bytes(&self) -> Seq<u8> { Seq::empty() } open spec fn g_pos(&self) -> int { 0 } open spec fn g_fault(&self) -> bool { false } }
 impl<R: Read> Read for AesReaderValid<R> { #[verifier::external_body] fn read(&mut self, buf: &mut [u8]) -> (r: io::Result<usize>) { unimplemented!() } }
-
-// T8: the extracted text names these through their crate paths
-pub mod flate2 { pub mod read { pub use super::super::DeflateDecoder; } }
